@@ -50,6 +50,7 @@ scenario(unsigned n, const unsigned char *des, const unsigned char *form, bool c
 	bool atagg = false, wellformed = true, scalarexcess = false;
 	struct init *ret;
 
+	SCENARIO_ENTER();
 	__CPROVER_assume(id0 < 1000);
 	exprs_init(&t_char, 4, &t_int);
 	mkarr(&t_b, &t_int, 2, false);
@@ -125,7 +126,7 @@ scenario(unsigned n, const unsigned char *des, const unsigned char *form, bool c
 		}
 	__CPROVER_assert(ret != 0 && t_S.size == 16 && t_b.size == 8 && !t_b.incomplete, "types untouched, list returned");
 #ifdef VERIF_CANARY
-	__CPROVER_assert(!(n >= 2 && x_n >= 2 && des[1] == D_NONE && id0 == 5), "CANARY");
+	__CPROVER_assert(!(g_last && id0 == 5), "CANARY");
 #endif
 }
 
@@ -140,16 +141,20 @@ harness(void)
 	/* second items: e | {e} | {e,e} | .b[1] = e | .c = e | .b = {e,e} */
 	static const unsigned char D1[6] = {D_NONE, D_NONE, D_NONE, D_B1, D_C, D_B};
 	static const unsigned char F1[6] = {FM_E, FM_BE, FM_BEE, FM_E, FM_E, FM_BEE};
+	static const unsigned char D0[D_N] = {D_NONE, D_A, D_B0, D_B1, D_C, D_B};   /* .b last: well-formed with every form */
 	unsigned d0, j;
 	unsigned char des[MAXIT], form[MAXIT];
 
 	for (d0 = 0; d0 < D_N; d0++) {
-		des[0] = d0; form[0] = V_FORM0;
+		des[0] = D0[d0]; form[0] = V_FORM0;
+		g_last = false;
 		scenario(1, des, form, d0 & 1);
 		for (j = 0; j < 6; j++) {
 			des[1] = D1[j]; form[1] = F1[j];
+			g_last = d0 == D_N - 1 && j == 4;       /* .c = e, .c = e: well-formed for every first form */
 			scenario(2, des, form, j & 1);
 		}
+		g_last = false;
 	}
 #else
 	/* e,e,e,e: full brace elision; e,e,e,e,e: one too many; e,{e,e},e; e,e,{e},e: braces around b[1] inside the elided b;
@@ -161,7 +166,9 @@ harness(void)
 	static const unsigned char N[9] = {4, 5, 3, 4, 2, 3, 3, 3, 4};
 	unsigned j;
 
-	for (j = 0; j < 9; j++)
+	for (j = 0; j < 9; j++) {
+		g_last = j == 8;
 		scenario(N[j], D[j], F[j], j & 1);
+	}
 #endif
 }
